@@ -44,7 +44,7 @@ theorem okMV_tyOK {S : Ir.Side} {vvty : Var → VTy} :
       simp only [htx] at ht
       split at ht
       · simp at ht
-      · simp at ht; subst ht; exact hok.1.2
+      · simp at ht; subst ht; exact hok.1
   | .swz x sl, t, ht, hok => by
     simp only [VOk.okMV, Bool.and_eq_true, decide_eq_true_eq] at hok
     simp only [VIr.typeOf] at ht
@@ -377,6 +377,116 @@ theorem sim_mcast {vty : Var → Ty} {ty : VTy} {x : VExpr} {x' a : VAExpr} {tx 
             simp [hsel] at hval
             simp only [hsel, VMsl.castMVR, castShapeR, hval]
             cases castShape W.P ty v <;> rfl
+
+/-! ### a literal operand converted to a concrete type (`(int3)1`, `(float3)1.5`, `(uint2)-3`)
+
+What the type checker builds since fixes 40c6233 / c05bffa for the literal next to a vector.  The emitted cast has the target
+type under Metal's rules — the literal is an `int` / a `float` there — and its value is the IR's conversion of the exact
+literal (`VOk.litOperandOK`: integer literals of magnitude below 2^31, floating literals converted to a float kind). -/
+
+theorem genMV_cast_sc_lit {c : Const} {l : HlslAst.Expr} {ty : VTy} {a : VAExpr}
+    (hgl : GenMsl.genLiteral c = .ok l) (hnl : ¬ (ty = .sc .lit ∨ ty = .sc .flit))
+    (hg : genMV cx vvty (.cast ty (.sc (.lit c))) = .ok a) :
+    ∃ n, GenMslVec.vtypeName ty = .ok n ∧ a = .cast n (.sc l) := by
+  simp only [genMV, getTy, GenMsl.exprTy, Option.map, GenMsl.genExpr, hgl, hnl, if_false] at hg
+  cases hn : GenMslVec.vtypeName ty with
+  | error e => simp [hn] at hg
+  | ok n => simp [hn, implicitTruncate] at hg; exact ⟨n, rfl, hg.symm⟩
+
+theorem cast_int_lit_val (P : Prim) {ty : VTy} (hoy : VOk.tyOKM ty = true) (v : Int) (h1 : -2147483648 < v) (h2 : v < 2147483648) :
+    VMsl.castMV P (.sc .int) ty (.sc (.i (BitVec.ofInt 32 v))) = castShape P ty (.sc (.lit v)) := by
+  have hb : (BitVec.ofInt 32 v != 0#32) = (v != 0) := by
+    by_cases hz : v = 0
+    · subst hz; rfl
+    · have : BitVec.ofInt 32 v ≠ 0#32 := by
+        intro h0
+        have := congrArg BitVec.toInt h0
+        rw [BitVec.toInt_ofInt] at this
+        have e : (0#32).toInt = 0 := by decide
+        rw [e] at this
+        unfold Int.bmod at this
+        have h32 : ((2 ^ 32 : Nat) : Int) = 4294967296 := by decide
+        simp only [h32] at this
+        split at this <;> omega
+      have a : (BitVec.ofInt 32 v != 0#32) = true := bne_iff_ne.mpr this
+      have b : (v != 0) = true := bne_iff_ne.mpr hz
+      rw [a, b]
+  cases ty with
+  | sc t => cases t <;> simp [VOk.tyOKM, VOk.basicK] at hoy <;>
+      simp [VMsl.castMV, castShape, Msl.castM, VTy.scalar, castVal, hb]
+  | vec t k => cases t <;> simp [VOk.tyOKM, VOk.basicK] at hoy <;>
+      simp [VMsl.castMV, castShape, Msl.castM, VTy.scalar, castVal, hb]
+
+theorem cast_float_lit_val (P : Prim) {ty : VTy} (hf : ty.scalar = .float) (x : BitVec 32) (d : BitVec 64) (hx : x = P.d2f d) :
+    VMsl.castMV P (.sc .float) ty (.sc (.f x)) = castShape P ty (.sc (.flit d)) := by
+  subst hx
+  cases ty with
+  | sc t => simp only [VTy.scalar] at hf; subst hf; simp [VMsl.castMV, castShape, Msl.castM, VTy.scalar, castVal]
+  | vec t k => simp only [VTy.scalar] at hf; subst hf; simp [VMsl.castMV, castShape, Msl.castM, VTy.scalar, castVal]
+
+theorem sim_mcast_lit {ty : VTy} {x : VExpr} {a : VAExpr}
+    (hP : M.P = W.P) (hoy : VOk.tyOKM ty = true) (hl : VOk.litOperandOK ty x = true)
+    (hg : genMV cx vvty (.cast ty x) = .ok a) :
+    VSimM W M env ρ (.cast ty x) a ty := by
+  have hnl : ¬ (ty = .sc .lit ∨ ty = .sc .flit) := by
+    intro h; rcases h with h | h <;> subst h <;> simp [VOk.tyOKM, VOk.basicK] at hoy
+  -- the final step, shared by the three forms of the literal: the operand has Metal type `tl` and value `vl`
+  have fin : ∀ (l : HlslAst.Expr) (c : Const) (tl : Ty) (vl : Val), GenMsl.genLiteral c = .ok l → x = .sc (.lit c) →
+      Msl.typeOf M.msig env.base l = some tl → (∀ σ, Msl.eval M env.base l σ = some (vl, σ)) →
+      VMsl.castMV W.P (.sc tl) ty (.sc vl) = castShape W.P ty (.sc (Ir.constVal c)) →
+      VSimM W M env ρ (.cast ty x) a ty := by
+    intro l c tl vl hgl hx htl hvl hval
+    subst hx
+    obtain ⟨n, hn, rfl⟩ := genMV_cast_sc_lit hgl hnl hg
+    have htn := vtypeName_vtyOfName hn hoy
+    have hco : VMsl.castOK (.sc tl) ty = true := by cases ty <;> rfl
+    constructor
+    · simp [VMsl.typeOf, htl, htn, hco]
+    · intro σ
+      simp only [VMsl.eval, VMsl.typeOf, htl, Option.map, htn, hco, if_true, hvl σ, VIr.eval, Ir.eval, hP,
+        VMsl.castMVR, castShapeR, hval]
+      cases castShape W.P ty (.sc (Ir.constVal c)) <;> rfl
+  cases x with
+  | sc e0 =>
+    cases e0 with
+    | lit c =>
+      cases c with
+      | intLit v =>
+        simp only [VOk.litOperandOK, Bool.and_eq_true, decide_eq_true_eq] at hl
+        by_cases hneg : v < 0
+        · -- `-(m)`: unary minus applied to the `int` literal m = -v
+          have hm : (-v).toNat < 2147483648 := by omega
+          have hb : -(BitVec.ofNat 32 (-v).toNat) = BitVec.ofInt 32 v := by
+            rw [ofNat_toNat_int _ (by omega), ← BitVec.ofInt_neg]; simp
+          refine fin (.un .Minus (.lit (.intUntyped (-v).toNat))) _ .int (.i (BitVec.ofInt 32 v)) ?_ rfl ?_ ?_ ?_
+          · rw [genLiteral_eq]
+            simp [GenHlsl.genLiteral, Ir.Const.kind, GenHlsl.Const.intValue,
+              GenSem.findArm_intLit_neg v hneg (by simp only [GenHlsl.u64Max]; omega), GenHlsl.negMagnitude]
+          · simp [Msl.typeOf, Msl.litTy, hm, astUnSem, Msl.promote]
+          · intro σ
+            simp [Msl.eval, Msl.typeOf, Msl.litTy, Msl.litVal, hm, astUnSem, Msl.promote, Msl.convR, Msl.convert,
+              Msl.unopM, unop, hb]
+          · exact cast_int_lit_val W.P hoy v hl.1 hl.2
+        · have hm : v.toNat < 2147483648 := by omega
+          refine fin (.lit (.intUntyped v.toNat)) _ .int (.i (BitVec.ofInt 32 v)) ?_ rfl ?_ ?_ ?_
+          · rw [genLiteral_eq]
+            simp [GenHlsl.genLiteral, Ir.Const.kind, GenHlsl.Const.intValue,
+              GenSem.findArm_intLit_nonneg v (by omega) (by simp only [GenHlsl.u64Max]; omega), GenHlsl.mkLit, Except.map]
+          · simp [Msl.typeOf, Msl.litTy, hm]
+          · intro σ
+            simp [Msl.eval, Msl.litVal, Msl.litTy, hm, ofNat_toNat_int _ (show 0 ≤ v by omega)]
+          · exact cast_int_lit_val W.P hoy v hl.1 hl.2
+      | floatLit d =>
+        simp only [VOk.litOperandOK, beq_iff_eq] at hl
+        refine fin (.lit (.floatUntyped d)) _ .float (.f (M.P.d2f d)) ?_ rfl ?_ ?_ ?_
+        · rw [genLiteral_eq]
+          simp [GenHlsl.genLiteral, Ir.Const.kind, GenHlsl.Const.intValue, GenSem.findArm_flit, GenHlsl.mkLit, Except.map]
+        · simp [Msl.typeOf, Msl.litTy]
+        · intro σ; simp [Msl.eval, Msl.litVal, Msl.litTy]
+        · exact cast_float_lit_val W.P hl _ d (by rw [hP])
+      | _ => simp [VOk.litOperandOK] at hl
+    | _ => simp [VOk.litOperandOK] at hl
+  | _ => simp [VOk.litOperandOK] at hl
 
 
 /-! ### swizzles: members on vectors; on scalars the operand itself or the constructor `T_n(s)` -/
